@@ -248,3 +248,29 @@ Proof. unfold go_map_get2; intros ->; reflexivity. Qed.
 Lemma go_map_len_empty : go_map_len eqb ([] : go_map K V) = 0%Z.
 Proof. reflexivity. Qed.
 End GoMapFacts.
+
+(* ---- copy, and slices whose spare capacity is tracked ---- *)
+(* copy(dst, src): the first min(len dst, len src) elements of dst replaced by those of src *)
+Definition go_copy {A : Type} (dst src : list A) : list A :=
+  firstn (length dst) src ++ skipn (length src) dst.
+
+(* x = x[:hi] of a slice whose backing array continues with [spare] up to its capacity: exact for
+   hi <= cap; the new slice and the new spare part (nothing of the array is forgotten) *)
+Definition go_reslice_cap {A : Type} (l spare : list A) (hi : Z) : res (list A * list A) :=
+  if (0 <=? hi) && (hi <=? zlen l + zlen spare)
+  then Ok (firstn (Z.to_nat hi) (l ++ spare), skipn (Z.to_nat hi) (l ++ spare))
+  else Panic PSlice.
+
+Lemma go_copy_length {A : Type} (dst src : list A) : length (go_copy dst src) = length dst.
+Proof.
+  unfold go_copy. rewrite app_length, firstn_length, skipn_length.
+  destruct (Nat.le_ge_cases (length dst) (length src)) as [H|H].
+  - rewrite Nat.min_l by exact H. replace (length dst - length src)%nat with O; [apply Nat.add_0_r|].
+    symmetry. apply Nat.sub_0_le. exact H.
+  - rewrite Nat.min_r by exact H. rewrite Nat.add_comm. apply Nat.sub_add. exact H.
+Qed.
+
+Lemma go_copy_same_length {A : Type} (dst src : list A) : length dst = length src -> go_copy dst src = src.
+Proof.
+  intros E. unfold go_copy. rewrite E, firstn_all, <- E, skipn_all. apply app_nil_r.
+Qed.
